@@ -350,7 +350,8 @@ def _msg_param_or_local(hf):
 def _strip_total_calls(fn_node):
     """Deep copy of the function in which calls that cannot fail are replaced by constants, so the CFG
     builder does not give them exceptional edges (propagation edges of finally copies are kept)."""
-    fn2 = copy.deepcopy(fn_node)
+    from ..core import clone_ast as _clone_ast
+    fn2 = _clone_ast(fn_node)
 
     class T(ast.NodeTransformer):
         def visit_ExceptHandler(self, node):
